@@ -5,7 +5,10 @@ enumerator below, `render` turns an AST into text lines, `reference` interprets 
 
 AST
     program := item*
-    item    := ("d", p)              definition  `v<line> int = <line>`; p=1 adds the property line `!tags ["t"]`
+    item    := ("d", p)              definition  `v<line> int = <line>`; p=1 adds the property line `!tags ["t"]`;
+                                     p=2 writes the value as a reference `v<line> int = {?v1}` (the node has to be
+                                     *evaluated* when it takes effect); only in programs that never modify v1,
+                                     because injection of a modified node is a separate suspect of property C17
              | ("m", sel)            modification `<target> = 100+<line>` of an earlier node that is certainly defined
                                      sel "n": nearest such node, "r": the definition on line 1 of the program
              | ("g", items)          group line with >= 1 child
@@ -111,6 +114,7 @@ def items(k, bd, ing, A):
     if k == 1:
         yield ("d", 0)
         if A[1]:
+            yield ("d", 2)
             yield ("m", "n")
             yield ("m", "r")
     if k == 2 and A[1]:
@@ -189,6 +193,8 @@ class Walk:
         self.nblocks = 0
         self.root_def = None       # (name,) of a definition on line 1
         self.uses_root = False
+        self.root_modified = False
+        self.ref_defs = False
         self.depth_max = 0
         self.effective_lines = 0
         self.skipped_lines = 0
@@ -198,6 +204,8 @@ class Walk:
         self._seq(prog, 0, (), [], True, top=True)
         if self.uses_root and self.root_def is None:
             raise Invalid("condition/modification refers to v1 but line 1 is not a root definition")
+        if self.ref_defs and self.root_modified:
+            raise Invalid("reference definitions only in programs that never modify v1 (C17 territory)")
 
     def _emit(self, ind, text, kind="n"):
         self.lines.append((ind, text))
@@ -211,23 +219,33 @@ class Walk:
             if kind == "d":
                 ln = self._emit(ind, None)
                 name = "v%d" % ln
-                self.lines[-1] = (ind, "%s int = %d" % (name, ln))
+                val = ln
+                if it[1] == 2:
+                    if self.root_def is None:
+                        raise Invalid("reference definition without v1")
+                    self.lines[-1] = (ind, "%s int = {?%s}" % (name, self.root_def))
+                    val = 1
+                    self.uses_root = True
+                    self.ref_defs = True
+                    self.feat.add("reference-valued-definition")
+                else:
+                    self.lines[-1] = (ind, "%s int = %d" % (name, ln))
                 full = ".".join(gpath + (name,))
                 self.def_lines[ln - 1] = full
                 if top and pos == 0:
                     self.root_def = full
                 visible.append((gpath, name, full))
                 if eff:
-                    self.data[full] = ln
-                    self.effective_values.add(ln)
+                    self.data[full] = val
+                    self.effective_values.add(val)
                 if self.nblocks:
                     self.probe_in_or_after_block = True
-                if it[1]:
+                if it[1] == 1:
                     self._emit(ind + 1, '!tags ["t"]')
                     if eff:
                         self.tagged.add(full)
                     self.feat.add("property-line")
-                self._tally(eff, 1 + it[1])
+                self._tally(eff, 2 if it[1] == 1 else 1)
             elif kind == "m":
                 # a name is always relative to the enclosing group lines, so only nodes at or below the current
                 # group path can be addressed
@@ -245,6 +263,8 @@ class Walk:
                 rel = ".".join(tgt[0][len(gpath):] + (tgt[1],))
                 ln = self._emit(ind, None)
                 self.lines[-1] = (ind, "%s = %d" % (rel, 100 + ln))
+                if tgt[2] == self.root_def:
+                    self.root_modified = True
                 if eff:
                     self.data[tgt[2]] = 100 + ln
                     self.effective_values.add(100 + ln)
